@@ -57,5 +57,11 @@ CHECKS = {
         "text": "TLC proves KeyTrie => KeyMapSpec for every history of <= 3 registrations of chords of length <= 3 over 2 (thorough 3) keys - enumeration = bound set, every lookup result, prefix-freeness - and the handler clauses (fires exactly at the last key of a chord typed from a clean point, never otherwise) for every fed key sequence, plus a long-chord configuration (length 4, 6 fed keys). Every one of these histories is replayed on the real KeyMap, register_override (two halves), lookup_state and KeyMapHandler with one extra unbound key, and judged by TLC. Key/chord parsers: 3 384 (text, expected value) vectors from KeySyntax.tla (36 names x modifier subsets), 12 486 hostile token concatenations and seeded non-ASCII strings: no panic, expected value, canonical print, print/parse and serde round trip.",
         "note": "Handler clauses are judged only from points where the property speaks (start, after a fire, after an unbound key at idle, after a key occurring in no chord).",
     },
+    "C14": {
+        "level": "model_checking",
+        "technique": "TLA+ streaming codec model (3-byte carry encoder; 4-in/3-out decoder with short reads, bounded buffer and drains) model-checked against closed-form RFC 4648 functions; real encoder/decoder runs judged by TLC with the same closed forms",
+        "text": "TLC proves for the code-shaped B64Stream model that finish() output equals Base64!Encode for every input of <= 5 (thorough 7) bytes over {0x00,0x41,0xFF} and EVERY partition into writes (incl. empty writes), that reading to the end yields Decode(text) for every read-size schedule (1..4 bytes per underlying read) and drain schedule, that an error arises only for text whose length is not a multiple of four and that such text is never accepted silently. Thousands of real runs (lengths 0..70 and around 96/128/192/256/768/4096, random partitions, 12 read schedules, 14 destination sizes, truncated/padding-heavy/arbitrary text) are judged by TLC against the same closed forms.",
+        "note": "Trusts Base64.tla as the RFC 4648 reference (prototype cross-checked against CPython's codec during design).",
+    },
 }
 
